@@ -186,6 +186,7 @@ def main(tier):
                 cfg["coordinator"]["agents"]["Attacker"]["max_steps"] = r.choice([5, 6, 7, 8, 10])
                 return cfg
             CC.probe_defender_rolls(cfail, coord_stats)
+            CC.settings_of = CC.settings_rewards_as_written      # 'the fail reward' is the configured value
             CC.directed_defender(drv, rng, tabs, cfail, coord_stats, 16 if tier == "quick" else 300)
             CC.run_sessions(drv, rng, tabs, cfail, coord_stats, 80 if tier == "quick" else 800, 45,
                             {"bad": 0.01, "leave": 0.02, "roles": ["Attacker", "Attacker", "Defender"], "outcome_mix": True,
